@@ -21,7 +21,7 @@ fn def_name(i: usize) -> String {
 }
 
 fn edge_schema(kind: &str, target: &str) -> Value {
-    let r = json!({"$ref": format!("#/definitions/{target}")});
+    let r = json!({"$ref": target});
     match kind {
         "req" | "opt" | "alias" | "variant" => r,
         "nullable" => json!({"oneOf": [r, {"type": "null"}]}),
@@ -50,7 +50,14 @@ pub fn graph_doc(g: &Value) -> Option<Value> {
         }
         out_edges[f].push((t, k.to_string()));
     }
+    // optionally node 0 is the (titled) root schema of the document and is referred to as "#"
+    let root = g["root"].as_bool() == Some(true);
+    if root && !matches!(kinds[0], "struct" | "enum") {
+        return None;
+    }
+    let rf = |t: usize| if root && t == 0 { "#".to_string() } else { format!("#/definitions/{}", def_name(t)) };
     let mut defs = Map::new();
+    let mut root_schema = Value::Null;
     for i in 0..n {
         let s = match kinds[i] {
             "struct" => {
@@ -59,7 +66,7 @@ pub fn graph_doc(g: &Value) -> Option<Value> {
                 for (j, (t, k)) in out_edges[i].iter().enumerate() {
                     let k2 = if k == "alias" || k == "variant" { "req" } else { k.as_str() };
                     let pn = format!("p{j}");
-                    props.insert(pn.clone(), edge_schema(k2, &def_name(*t)));
+                    props.insert(pn.clone(), edge_schema(k2, &rf(*t)));
                     if k2 != "opt" {
                         req.push(pn);
                     }
@@ -73,7 +80,7 @@ pub fn graph_doc(g: &Value) -> Option<Value> {
                     let k2 = if k == "alias" || k == "variant" { "req" } else { k.as_str() };
                     let vn = format!("v{j}");
                     let mut p = Map::new();
-                    p.insert(vn.clone(), edge_schema(if k2 == "opt" { "nullable" } else { k2 }, &def_name(*t)));
+                    p.insert(vn.clone(), edge_schema(if k2 == "opt" { "nullable" } else { k2 }, &rf(*t)));
                     vs.push(json!({"type": "object", "properties": p, "required": [vn], "additionalProperties": false}));
                 }
                 json!({"oneOf": vs})
@@ -85,7 +92,7 @@ pub fn graph_doc(g: &Value) -> Option<Value> {
                     return None;
                 }
                 let mut seen = std::collections::BTreeSet::new();
-                let bs: Vec<Value> = out_edges[i].iter().filter(|(t, _)| seen.insert(*t)).map(|(t, _)| json!({"$ref": format!("#/definitions/{}", def_name(*t))})).collect();
+                let bs: Vec<Value> = out_edges[i].iter().filter(|(t, _)| seen.insert(*t)).map(|(t, _)| json!({"$ref": rf(*t)})).collect();
                 if bs.len() < 2 {
                     return None;
                 }
@@ -95,19 +102,29 @@ pub fn graph_doc(g: &Value) -> Option<Value> {
                 // exactly one outgoing edge, which must be a plain reference
                 match out_edges[i].as_slice() {
                     [] => json!({"type": "string"}),
-                    [(t, _)] => json!({"$ref": format!("#/definitions/{}", def_name(*t))}),
+                    [(t, _)] => json!({"$ref": rf(*t)}),
                     _ => return None,
                 }
             }
             _ => return None,
         };
-        defs.insert(def_name(i), s);
+        if root && i == 0 {
+            root_schema = s;
+        } else {
+            defs.insert(def_name(i), s);
+        }
     }
     // cycles of bare aliases denote no schema
     let mut tmp = defs.clone();
     crate::gen::schema::break_alias_cycles(&mut tmp);
     if tmp != defs {
         return None;
+    }
+    if root {
+        let mut d = root_schema.as_object().cloned()?;
+        d.insert("title".into(), json!(def_name(0)));
+        d.insert("definitions".into(), Value::Object(defs));
+        return Some(Value::Object(d));
     }
     Some(json!({"definitions": Value::Object(defs)}))
 }
@@ -182,7 +199,11 @@ fn random_graph(g: &mut G) -> Value {
         let k = if kinds[f] == "enum" && k == "req" { "variant" } else { k };
         edges.push((f, t, k));
     }
-    graph(&kinds, edges, false)
+    let mut gv = graph(&kinds, edges, false);
+    if matches!(kinds[0], "struct" | "enum") && g.chance(1, 4) {
+        gv["root"] = json!(true);
+    }
+    gv
 }
 
 impl Property for C07 {
@@ -200,6 +221,13 @@ impl Property for C07 {
     }
     fn chunk(&self) -> usize {
         40000
+    }
+    fn fuzz_gen(&self, g: &mut G) -> Option<Value> {
+        let mut c = random_graph(g);
+        if g.chance(1, 3) {
+            c["prebatch"] = json!(true);
+        }
+        Some(c)
     }
     fn generate(&self, tier: Tier, seed: u64) -> Vec<Value> {
         let mut out = vec![];
@@ -330,6 +358,18 @@ impl Property for C07 {
             })
             .collect();
         out.extend(with_pre);
+        // every exhaustive graph whose first node can be a root schema also in rooted form
+        let rooted: Vec<Value> = out
+            .iter()
+            .filter(|gv| matches!(gv["kinds"][0].as_str(), Some("struct") | Some("enum")) && gv["prebatch"].as_bool() != Some(true))
+            .map(|gv| {
+                let mut x = gv.clone();
+                x["root"] = json!(true);
+                x["compile"] = json!(false);
+                x
+            })
+            .collect();
+        out.extend(rooted);
         out.extend(rnd);
         out
     }
@@ -351,7 +391,11 @@ impl Property for C07 {
             history.push(Step::Refs { defs: json!({"Unrelated": {"type": "object", "properties": {"u": {"type": "string"}}}, "UnrelatedToo": {"type": "string", "enum": ["p", "q"]}}) });
         }
         history.push(Step::Root { doc });
-        let case = Case { history, roots: names.iter().map(|n| RootSel::Ref { r: format!("#/definitions/{n}") }).collect(), ..Default::default() };
+        let mut roots: Vec<RootSel> = names.iter().map(|n| RootSel::Ref { r: format!("#/definitions/{n}") }).collect();
+        if gv["root"].as_bool() == Some(true) {
+            roots.push(RootSel::Step { step: history.len() - 1 });
+        }
+        let case = Case { history, roots, ..Default::default() };
         let mut ing = ingest::ingest(&case);
         unit.outcome = ing.outcome.clone();
         unit.message = ing.message.clone();
